@@ -41,7 +41,7 @@ ESCAPED_PRINTABLES = [TRANSFORMATIONS.get(x, x)
 
 DOT_REPLACEMENT = "(" + "|".join(ESCAPED_PRINTABLES) + ")"
 
-TO_ESCAPE_IN_BRACKETS = "(+*)?"
+TO_ESCAPE_IN_BRACKETS = "(+*)?.$"
 
 SHORTCUTS = {
     " ": "\\ ",  # We have to do this due to how Regex separate words
@@ -246,6 +246,9 @@ class PythonRegex(regex.Regex):
                 if (i != 0 and bracket_content[i - 1] == "-"
                         and not previous_is_valid_for_range):
                     previous_is_valid_for_range = False
+                elif i == 0 and symbol == "^":
+                    # The negation marker cannot start a range
+                    previous_is_valid_for_range = False
                 else:
                     previous_is_valid_for_range = True
         bracket_content_temp = self._preprocess_negation(bracket_content_temp)
@@ -257,8 +260,8 @@ class PythonRegex(regex.Regex):
     def _preprocess_negation(bracket_content):
         if not bracket_content or bracket_content[0] != "^":
             return bracket_content
-        # We inverse everything
-        return [x for x in ESCAPED_PRINTABLES if x not in bracket_content]
+        # We inverse everything (the first element is the negation marker)
+        return [x for x in ESCAPED_PRINTABLES if x not in bracket_content[1:]]
 
     @staticmethod
     def _insert_or(l_to_modify):
